@@ -35,7 +35,8 @@ TRUSTED_BASE = [
     "project_and_remove, modelled as projector / trace normalisation / partial trace on 2^n x 2^n complex matrices, maps |G><G| to the graph state of the induced "
     "pair; the trace of the projected matrix is 4/2^n, never 0) — and on exact 4x4 rational matrices (the two possible states entry by entry, negativity 0 resp. 1/2: "
     "density_to_graph_pair_spectrum — eigenvalues as roots of the characteristic polynomial —, density_to_graph_edge_rule_partial); NOT proved: that the numpy "
-    "code of project_and_remove / partial_trace / bipartite_partial_transpose computes the modelled maps, float eigenvalues (eigh), purity test, closing np.allclose — "
+    "code of project_and_remove / partial_trace / bipartite_partial_transpose computes the modelled maps (compared: partial transpose exhaustively on the 16 matrix "
+    "units, project_and_remove on random density matrices n <= 4 against the modelled formula), float eigenvalues (eigh), purity test, closing np.allclose — "
     "compared numerically per input: project_and_remove and negativity of every pair of every graph on <= 5 vertices against the two proved states",
     "harness dense reference (n <= 5) and independent signed-group canonicaliser",
 ]
@@ -122,6 +123,46 @@ def check_pair_states(res, adj, rho, inp):
                                 model="graph state of the induced pair: " + ("CZ|++>, negativity 1/2" if adj[i, j] else "|++>, negativity 0"))
             else:
                 res.traces_validated += 1
+
+
+def check_density_maps(ctx, res):
+    """the two numpy maps that the Hilbert-space density theorems model, against the modelled formulas on GENERIC inputs (not only graph states):
+    * `bipartite_partial_transpose(M, 2, 2, 0)` = `Neg.ptA`: result[r, c] = M[2*(c//2) + r%2, 2*(r//2) + c%2] — exhaustive on the 16 matrix units
+      (the map is linear);
+    * `project_and_remove(rho, mask_ij)` = `projectAndRemove` (C08.density_to_graph_project_and_remove): entries rho[emb a, emb b] / (their trace),
+      emb = the two bits at positions i, j (qubit 0 most significant) and 0 elsewhere — on random density matrices, n <= 4, every pair."""
+    from graphiq.backends.density_matrix import functions as dmf
+
+    for p in range(4):
+        for q in range(4):
+            e = np.zeros((4, 4))
+            e[p, q] = 1.0
+            got = np.asarray(dmf.bipartite_partial_transpose(e, 2, 2, 0))
+            want = np.array([[e[2 * (c // 2) + r % 2, 2 * (r // 2) + c % 2] for c in range(4)] for r in range(4)])
+            res.evaluations += 1
+            if np.array_equal(got, want):
+                res.traces_validated += 1
+            else:
+                res.exact_break("bipartite_partial_transpose:formula", input={"unit": [p, q]}, impl=got.tolist(), model=want.tolist())
+    for n in (2, 3, 4):
+        for _ in range(2 if ctx.quick else 10):
+            d = 2 ** n
+            a = np.array([[complex(ctx.rng.gauss(0, 1), ctx.rng.gauss(0, 1)) for _ in range(d)] for _ in range(d)])
+            rho = a @ a.conj().T
+            rho = rho / np.trace(rho)
+            for i in range(n):
+                for j in range(i + 1, n):
+                    mask = [0 if k in (i, j) else 1 for k in range(n)]
+                    got = np.asarray(dmf.project_and_remove(rho.copy(), mask))
+                    emb = [(a0 << (n - 1 - i)) | (a1 << (n - 1 - j)) for a0 in (0, 1) for a1 in (0, 1)]
+                    comp = rho[np.ix_(emb, emb)]
+                    want = comp / np.trace(comp)
+                    res.evaluations += 1
+                    if np.allclose(got, want, atol=1e-9):
+                        res.traces_validated += 1
+                    else:
+                        res.exact_break("project_and_remove:formula", input={"n": n, "pair": [i, j]}, impl=np.round(got, 6).tolist(),
+                                        model=np.round(want, 6).tolist())
 
 
 def check_graph(ctx, res, drv, adj, pending):
@@ -407,6 +448,7 @@ def run(ctx, budget=1.0):
     drv = Driver()
     rng = ctx.rng
     pending = []
+    check_density_maps(ctx, res)
     for w in FORMER_D40:
         check_state_to_graph(ctx, res, drv, stab_of_args(w), pending, "corpus:former-D40")
     check_state_to_graph(ctx, res, drv, stab_of_args(D49_WITNESS), pending, "corpus:D49")
